@@ -172,6 +172,28 @@ fn check_corpus(name: &str, rec: &mut Rec) -> Result<Value, Fail> {
     Ok(json!({"corpus": name, "keys": keys.len(), "trie_nodes": m.trie_nodes, "minimal_states": m.states.len(), "emitted_nodes": em, "evictions": built.evictions, "realised_sharing": (ratio * 1000.0).round() / 1000.0}))
 }
 
+/// ~450 distinct 256-way nodes with 8-byte outputs between two occurrences of the same tail.
+fn fat_input(v: u64) -> FstInput {
+    let mut pairs: gen::Pairs = vec![];
+    let nfat = 430 + 20 * v as usize;
+    let tail = b"tail-shared-by-both-ends";
+    let mut k0 = vec![b'0'];
+    k0.extend_from_slice(tail);
+    pairs.push((k0, 1));
+    for i in 0..nfat {
+        for b in 0..=255u8 {
+            let key = vec![b'1', (i / 250) as u8 + b'a', (i % 250) as u8, b];
+            // unrelated 64-bit values: after the common prefix is pushed up, every
+            // transition still carries an 8-byte output (node of ~2.8 kB)
+            pairs.push((key, crate::engine::mix(i as u64 * 256 + b as u64, 0xfa7 + v)));
+        }
+    }
+    let mut k2 = vec![b'2'];
+    k2.extend_from_slice(tail);
+    pairs.push((k2, u64::MAX - v));
+    FstInput::new(gen::Front::MapBuilder, None, gen::sort_dedup(pairs))
+}
+
 pub fn run(e: &Engine) {
     e.set_rule("cases are key sets / maps from the shared shapes (dense, full-byte, fan-out, numeric) under the default cache geometry and hook geometries; the eviction hook is read after each build; when it is 0: sets must have exactly as many emitted nodes (sentinel included) as the independently computed minimal acyclic DFA (hash-consed trie) and be isomorphic to it, and no two emitted nodes may have the same signature (maps and sets); always: emitted nodes <= trie nodes; corpora in /repo/data: realised sharing (trie-emitted)/(trie-minimal) must exceed 0.5; non-trivial = zero-eviction build whose minimal DFA has strictly fewer states than the trie; distinct by input hash");
     e.assume("the no-eviction premise is observed through the cfg(burntsushi_fst_verif) eviction counter; minimality of output placement (transducers) is not claimed");
@@ -234,27 +256,8 @@ pub fn run(e: &Engine) {
     );
     // few distinct nodes, large distances: ~450 distinct 256-way nodes with 8-byte outputs
     // (file > 1 MiB, no eviction possible) between two occurrences of the same tail
-    let fat: Vec<FstInput> = (0..e.tier.pick(2u64, 8)).map(|v| {
-        let mut pairs: gen::Pairs = vec![];
-        let nfat = 430 + 20 * v as usize;
-        let tail = b"tail-shared-by-both-ends";
-        let mut k0 = vec![b'0'];
-        k0.extend_from_slice(tail);
-        pairs.push((k0, 1));
-        for i in 0..nfat {
-            for b in 0..=255u8 {
-                let key = vec![b'1', (i / 250) as u8 + b'a', (i % 250) as u8, b];
-                // unrelated 64-bit values: after the common prefix is pushed up, every
-                // transition still carries an 8-byte output (node of ~2.8 kB)
-                pairs.push((key, crate::engine::mix(i as u64 * 256 + b as u64, 0xfa7 + v)));
-            }
-        }
-        let mut k2 = vec![b'2'];
-        k2.extend_from_slice(tail);
-        pairs.push((k2, u64::MAX - v));
-        FstInput::new(gen::Front::MapBuilder, None, gen::sort_dedup(pairs))
-    }).collect();
-    e.run_list("fat-nodes-between-equal-tails", &fat, |c| json!({"fat_case_keys": c.pairs.len()}), |c, rec| {
+    let fat: Vec<(u64, FstInput)> = (0..e.tier.pick(2u64, 8)).map(|v| (v, fat_input(v))).collect();
+    e.run_list("fat-nodes-between-equal-tails", &fat, |(v, c)| json!({"fat_case": v, "fat_case_keys": c.pairs.len()}), |(_, c), rec| {
         let size = gen::build(c).map(|b| b.bytes.len()).unwrap_or(0);
         if size > (1 << 20) + (1 << 16) {
             rec.class("file_over_1MiB_few_distinct_nodes");
@@ -301,8 +304,8 @@ pub fn run(e: &Engine) {
 pub fn replay(sub: &str, case: &Value) -> Option<CheckResult> {
     let mut rec = Rec::new(0);
     Some(crate::engine::guarded(|| {
-        if case.get("fat_case_keys").is_some() {
-            return Ok(());
+        if let Some(v) = case.get("fat_case").and_then(|x| x.as_u64()) {
+            return check(&fat_input(v), &mut rec);
         }
         if let Some(c) = case.get("corpus") {
             check_corpus(c.as_str().ok_or_else(bad)?, &mut rec).map(|_| ())
